@@ -3,8 +3,8 @@ from verif import Case
 from gen_util import *
 import pyref
 
-MODULES = ["WowSrp.Props.C10", "WowSrp.Props.Source.Structural.C10", "WowSrp.Props.Source.LayoutsWrath", "WowSrp.Props.Source.Glue.Wrath", "WowSrp.Props.Source.Shape.HeaderMods"]
-THEOREMS = ["C10_constants", "C10_len", "C10_marker", "C10_decode_encode", "C10_server_emits", "C10_roundtrip_read", "C10_roundtrip_read_stream", "C10_roundtrip_attempt", "C10_sequence", "C10_sequence_fresh", "C10_source_structural_impls", "C10_translated_layout_wrath", "C10_translated_parse_wrath", "C10_source_glue_wrath", "C10_source_shape_headermods"]
+MODULES = ["WowSrp.Props.C10", "WowSrp.Props.Source.Structural.C10", "WowSrp.Props.Source.LayoutsWrath", "WowSrp.Props.Source.Glue.Wrath", "WowSrp.Props.Source.Shape.C10"]
+THEOREMS = ["C10_constants", "C10_len", "C10_marker", "C10_decode_encode", "C10_server_emits", "C10_roundtrip_read", "C10_roundtrip_read_stream", "C10_roundtrip_attempt", "C10_sequence", "C10_sequence_fresh", "C10_source_structural_impls", "C10_translated_layout_wrath", "C10_translated_parse_wrath", "C10_source_glue_wrath", "C10_source_shapes"]
 RULE = ("boundary sizes (0, 1, 0x7FFF, 0x8000, 0xFFFF, 0x10000, 0x3FFFFF, 0x400000, 0x7FFFFF) x opcodes (0, 0xFF, 0x100, 0xFFFF, random); random mixed "
         "sequences of short/long headers on one connection: server output compared with an independent encoder+RC4, then fed to the client through "
         "the read-based call and through attempt + one more byte; sweeps (digest on both sides, zero decode mismatches required): quick 2^17 sizes "
